@@ -3,7 +3,7 @@
 from harness import core, clsrun, clsops, canon
 from harness.core import hx, unhx, err_line
 
-LEAN_MODULES = ['CpProps.C04']
+LEAN_MODULES = ['CpProps.C04', 'CpProps.C04Ssl2']
 RULE = ('for generated records/packets of every modelled record layer and TLS handshake messages: EVERY proper prefix '
         '(all cut positions for encodings up to 120 bytes, a dense sample beyond) is parsed by the real code and by the '
         'model and must be rejected with NotEnoughData(m), 1 <= m <= bytes really missing; a reader loop driven by '
